@@ -119,12 +119,22 @@ def rfc_fp(body):
 
 def model_fp(d, toks, kid=False):
     """(the extracted model is slow on 2048-bit numbers: ~25 ms per MPI encoding, so the key id is a separate command)"""
-    r = d.call('fp ' + toks).split(' ')
+    r = cached(d, 'fp ' + toks).split(' ')
     m = {'fp': r[0], 'rfc': r[1], 'publen': unhn(r[2]), 'body': r[3], 'rfcbody': r[4]}
     if kid:
-        k = d.call('kid ' + toks).split(' ')
+        k = cached(d, 'kid ' + toks).split(' ')
         m['keyid'], m['keyidval'] = k[0], unhn(k[1])
     return m
+
+
+def cached(d, line):
+    """the model is a function: identical command lines (same key fields under another time zone / datetime flavour) are asked once"""
+    c = d.__dict__.setdefault('_memo', {})
+    if line not in c:
+        if len(c) > 20000:
+            c.clear()
+        c[line] = d.call(line)
+    return c[line]
 
 
 def exported_pub_body(pkt):
@@ -138,7 +148,12 @@ def check_packet(ctx, d, suite, pkt, case, created=None, nontrivial=True, kid=Tr
     """one key packet: implementation vs model vs RFC law.  Returns the model record."""
     toks = key_tokens(pkt, created)
     m = model_fp(d, toks, kid)
-    impl = str(pkt.fingerprint).lower()
+    o = outcome(lambda: (str(pkt.fingerprint).lower(), bytes(pkt.__bytearray__()).hex()))
+    if o[0] != 'ok':
+        ctx.case(suite, (toks,), nontrivial=False)
+        ctx.fail(suite, 'fingerprint / emission of a well-formed key raises', dict(case, tokens=toks[:600], impl=repr(o)))
+        return m
+    impl = o[1][0]
     case = dict(case, pkt=bytes(pkt.__bytearray__()).hex(), tokens=toks if len(toks) < 600 else toks[:600] + '...')
     ctx.case(suite, (toks,), nontrivial=nontrivial, sample={'tokens': toks[:200], 'impl_fp': impl})
     ctx.expect_eq(suite, 'fingerprint differs from the model of PubKeyV4.fingerprint', case, impl, m['fp'])
@@ -149,7 +164,7 @@ def check_packet(ctx, d, suite, pkt, case, created=None, nontrivial=True, kid=Tr
     ctx.expect_eq(suite, 'publen() differs from model', case, pkt.keymaterial.publen(), m['publen'])
     # emitted octets of this very packet
     (tag, body), = split_packets(bytes(pkt.__bytearray__()))
-    mt, mb = d.call('body ' + toks).split(' ')
+    mt, mb = cached(d, 'body ' + toks).split(' ')
     ctx.expect_eq(suite, 'emitted key packet (tag, body) differs from model', case, (tag, body.hex()), (unhn(mt), mb))
     if body[:6 + m['publen']].hex() != m['body']:
         ctx.fail(suite, 'public body is not the first 6+publen octets of the emitted body', case)
@@ -218,14 +233,14 @@ def reparse_packet(pgpy, pkt):
 def suite_times(ctx, d, pgpy, names):
     """creation times 0 .. 2^32-1, tz-aware datetimes whose rendering differs from UTC, naive datetimes; export + import"""
     from .keys import get
-    extra = [ctx.rng.randrange(2 ** 32) for _ in range(ctx.n(4, 40))]
+    extra = [ctx.rng.randrange(2 ** 32) for _ in range(ctx.n(4, 24))]
     for name in names:
         key = get(name)
         big = name.startswith(('rsa', 'dsa'))      # the extracted model needs ~25 ms per 2048-bit MPI: fewer cases, public packet only (quick)
         for pkt0 in packets_of_key(key):
             if big and ctx.quick:
                 pkt0 = pkt0.pubkey()
-            for w in (TIMES[:7] if big and ctx.quick else TIMES + extra):
+            for w in (TIMES[:7] if big and ctx.quick else TIMES + extra[:6] if big else TIMES + extra):
                 for tz in (ZONES if (ctx.quick is False or (w in (0, 2 ** 31, 2 ** 32 - 1) and not big)) else
                            [timezone.utc, ZONES[1], None] if w in TIMES[:7] else [timezone.utc, ZONES[2]]):
                     pkt = copy.copy(pkt0)
@@ -241,13 +256,13 @@ def suite_times(ctx, d, pgpy, names):
                         ctx.fail('creation-time', 'emitted key packet is not read back', dict(case, impl=repr(o)))
                         continue
                     q = o[1]
-                    if str(q.fingerprint).lower() != m['fp'] or wallclock(q.created) != w:
+                    if outcome(lambda: str(q.fingerprint).lower())[1] != m['fp'] or wallclock(q.created) != w:
                         ctx.fail('creation-time', 'fingerprint / creation time changes over export + import',
                                  dict(case, pkt=bytes(pkt.__bytearray__()).hex(), after=str(q.fingerprint), created=str(q.created)))
                     # assigning the integer directly
                     pkt2 = copy.copy(pkt0)
                     pkt2.created = w
-                    if str(pkt2.fingerprint).lower() != m['fp']:
+                    if outcome(lambda: str(pkt2.fingerprint).lower())[1] != m['fp']:
                         ctx.fail('creation-time', 'created=<int> gives another fingerprint than the datetime', case)
 
 
@@ -336,7 +351,7 @@ def suite_leading_zero(ctx, d, pgpy):
     rng = ctx.rng
     specs = []
     sizes = [1, 2, 7, 8, 9, 15, 16, 17, 63, 64, 65, 1023, 1024, 1025, 2047] + [rng.randrange(1, 600) for _ in range(6)] if ctx.quick else \
-            [1, 2, 7, 8, 9, 15, 16, 17, 63, 64, 65, 1023, 1024, 1025, 2041, 2047, 2048, 2049, 4095, 4096] + [rng.randrange(1, 4100) for _ in range(60)]
+            [1, 2, 7, 8, 9, 15, 16, 17, 63, 64, 65, 1023, 1024, 1025, 2041, 2047, 2048, 2049, 4095, 4096] + [rng.randrange(1, 4100) for _ in range(24)]
     for bits in sizes:
         n = (1 << (bits - 1)) | rng.getrandbits(bits - 1) if bits > 1 else 1
         specs.append((1, dict(n=n, e=rng.choice([3, 17, 65537, 0x100000001]))))
@@ -384,7 +399,7 @@ def suite_model_encoded(ctx, d, pgpy, names):
         pubbytes = bytes(key.pubkey)
         others = split_packets(pubbytes)[1:]
         for pkt0 in packets_of_key(key):
-            for w in [0, 2 ** 31 + 1, 2 ** 32 - 1] + [ctx.rng.randrange(2 ** 32) for _ in range(ctx.n(1, 8))]:
+            for w in [0, 2 ** 31 + 1, 2 ** 32 - 1] + [ctx.rng.randrange(2 ** 32) for _ in range(ctx.n(1, 4))]:
                 toks = key_tokens(pkt0, created=w, public=True)
                 m = model_fp(d, toks)
                 tag, body = d.call('body ' + toks).split(' ')
@@ -438,7 +453,7 @@ def suite_history(ctx, d, pgpy, names, random_walks):
                           (tag, body.hex(), base[i].lower()), (unhn(mt), mb, mf))
 
     for name in names:
-        for walk in range(1 + random_walks):
+        for walk in range(1 + (random_walks if not name.startswith(('rsa', 'dsa')) else min(random_walks, 1))):
             key = get(name)
             base = fps(key)
             toks0 = [key_tokens(p) for p in packets_of_key(key)]
@@ -616,6 +631,40 @@ def suite_opaque(ctx, d, pgpy):
                                      '(OpaquePubKey, publen() = 0) get SHA-1 over 99 00 06 + six octets, not the RFC 4880 12.2 value; witness packet ' + raw.hex())
 
 
+def suite_gpg(ctx, d, pgpy, names):
+    """optional cross-check sample (never a condition for passing): GnuPG's fingerprint of keys ENCODED BY THE MODEL"""
+    import shutil, tempfile
+    from .keys import get
+    if not shutil.which('gpg'):
+        ctx.notes.append('gpg cross-check: gpg not found, skipped'); return
+    home = tempfile.mkdtemp(prefix='c18gpg')
+    agree = disagree = unreadable = 0
+    try:
+        for name in names:
+            key = get(name)
+            w = ctx.rng.choice([1, 12345, 2 ** 31 + 1, 2 ** 32 - 1])
+            toks = key_tokens(key._key, created=w, public=True)
+            tag, body = d.call('body ' + toks).split(' ')
+            blob = unhx(d.call('pkt', tag, body)) + b''.join(unhx(d.call('pkt', hn(t), hx(b))) for t, b in split_packets(bytes(key.pubkey))[1:])
+            try:
+                p = subprocess.run(['gpg', '--homedir', home, '--batch', '--no-tty', '--with-colons', '--show-keys', '--allow-non-selfsigned-uid',
+                                    '--with-subkey-fingerprint'], input=blob, capture_output=True, timeout=60)
+                fprs = [l.split(':')[9].lower() for l in p.stdout.decode('latin-1').splitlines() if l.startswith('fpr:')]
+            except Exception:
+                fprs = []
+            want = [model_fp(d, toks)['fp']] + [str(s.fingerprint).lower() for s in key.subkeys.values()]
+            if not fprs:
+                unreadable += 1
+            elif fprs[0] == want[0] and set(fprs[1:]) <= set(want[1:]):     # gpg drops subkeys whose binding no longer verifies
+                agree += 1
+            else:
+                disagree += 1
+                ctx.notes.append('gpg cross-check DISAGREES on model-encoded %s (created %d): gpg %s, model %s' % (name, w, fprs, want))
+    finally:
+        shutil.rmtree(home, ignore_errors=True)
+    ctx.notes.append('gpg 2.x cross-check of model-encoded keys (sample, not a pass condition): %d agree, %d disagree, %d not listed by gpg' % (agree, disagree, unreadable))
+
+
 def run(ctx):
     pgpy = load_repo()
     from .keys import available
@@ -649,6 +698,7 @@ def run(ctx):
             fresh.append(('RSAEncryptOrSign', 2048))
         suite_fresh(ctx, d, pgpy, fresh)
         suite_opaque(ctx, d, pgpy)
+        suite_gpg(ctx, d, pgpy, [n for n in names if n in ('ed25519', 'p256', 'rsa1024')] if q else names)
         ctx.notes.append('sha1 oracle calls answered by hashlib: %d' % d.oracle_calls)
     finally:
         d.close()
